@@ -1173,6 +1173,9 @@ func sortSpec(c *Case) (V, bool) {
 // oracle: expected result, expected receiver afterwards (lists), ok.
 func oracle(c *Case) (V, *V, bool) {
 	switch c.Op {
+	case "alias":
+		v, ok := aliasSpec(c)
+		return v, nil, ok
 	case "sort":
 		v, ok := sortSpec(c)
 		return v, nil, ok
@@ -1630,4 +1633,97 @@ func interpolateSpec(fv, x V) (V, bool) {
 		return errV, true // too many arguments
 	}
 	return vStr(string(out)), true
+}
+
+// ---- results are new values: x * n, x + y, x[i:j:k], list(x), sorted(x), reversed(x) on lists
+// return a NEW list (spec.md: "yields a new value" / "returns a new list"), so a later in-place
+// change of the result is invisible in the operands and vice versa.  aliasSpec computes the
+// three lists (x, a, r) after the mutation with value semantics: every list is its own copy.
+func aliasSpec(c *Case) (V, bool) {
+	x, a := *c.X, c.Args[0]
+	if x.T != "list" {
+		return errV, false
+	}
+	cp := func(l []V) []V { return append([]V{}, l...) }
+	var r []V
+	switch c.Name {
+	case "mul", "rmul":
+		sub := Case{Op: "bin", Name: "*", X: &x, Args: []V{a}}
+		v, _, ok := oracle(&sub)
+		if !ok || v.T != "list" {
+			return errV, ok
+		}
+		r = cp(v.L)
+	case "add":
+		if a.T != "list" {
+			return errV, true
+		}
+		r = append(cp(x.L), a.L...)
+	case "radd":
+		if a.T != "list" {
+			return errV, true
+		}
+		r = append(cp(a.L), x.L...)
+	case "addself":
+		r = append(cp(x.L), x.L...)
+	case "slice":
+		sub := Case{Op: "slice", X: &x, Args: a.L}
+		v, _, ok := oracle(&sub)
+		if !ok || v.T != "list" {
+			return errV, ok
+		}
+		r = cp(v.L)
+	case "list":
+		r = cp(x.L)
+	case "reversed":
+		for i := len(x.L) - 1; i >= 0; i-- {
+			r = append(r, x.L[i])
+		}
+	case "sorted":
+		sub := Case{Op: "sort", Name: "sorted", Args: []V{x}}
+		v, ok := sortSpec(&sub)
+		if !ok || v.T != "list" {
+			return errV, ok
+		}
+		r = cp(v.L)
+	default:
+		return errV, false
+	}
+	xs := cp(x.L)
+	as := a
+	target := &xs
+	var al []V
+	switch {
+	case len(c.Key) >= 6 && c.Key[len(c.Key)-6:] == "result":
+		target = &r
+	case len(c.Key) >= 5 && c.Key[len(c.Key)-5:] == "other":
+		if a.T != "list" {
+			return errV, true // ints and tuples cannot be mutated
+		}
+		al = cp(a.L)
+		target = &al
+	}
+	t := *target
+	switch {
+	case len(c.Key) >= 3 && c.Key[:3] == "set":
+		if len(t) > 0 {
+			t[len(t)-1] = vInt(99)
+		}
+	case len(c.Key) >= 9 && c.Key[:9] == "popappend":
+		if len(t) > 0 {
+			t = t[:len(t)-1]
+		}
+		t = append(t, vInt(98))
+	case len(c.Key) >= 6 && c.Key[:6] == "append":
+		t = append(t, vInt(99))
+	case len(c.Key) >= 5 && c.Key[:5] == "clear":
+		t = nil
+	case len(c.Key) >= 6 && c.Key[:6] == "insert":
+		t = append([]V{vInt(97)}, t...)
+	}
+	*target = t
+	if al != nil || (a.T == "list" && target == &al) {
+		as = V{T: "list", L: al}
+	}
+	return vTuple(V{T: "list", L: xs}, as, V{T: "list", L: r}), true
 }
